@@ -7,6 +7,9 @@ reference parser: Spec/Rfc822.lean (CPython `email.parser`, compat32).
 import PoetryVerif.Proofs.Meta
 import PoetryVerif.Proofs.MetaClassifiers
 import PoetryVerif.Proofs.MetaStyles
+import PoetryVerif.Proofs.MetaIff
+import PoetryVerif.Proofs.MetaStylesRange
+import PoetryVerif.Proofs.MetaValidateExt
 
 set_option linter.unusedSimpArgs false
 set_option linter.unusedVariables false
@@ -127,6 +130,133 @@ theorem full_statement_fails_without_guard : ¬ C14_full_statement := by
   have hopt : optionalEntries poisoned = optionalEntries demo := rfl
   simp [expectedFields, allEntries, baseEntries, hopt] at hlen
 
+/-! ### the exact condition (`render_injection_iff`)
+
+`NoLineBreakInSingleLineFields` is sufficient but not necessary: a line end *followed by a blank or tab* inside a
+single-line value is an RFC 822 folded header, and the parser gives the value back unchanged (`folded_value_is_harmless`).
+The exact condition is `ValueOk`: every line end in the value is followed by a blank/tab (`\r` may be followed by
+`\n`), and the value does not END in a line end.  A trailing line end is the dangerous silent case: nothing is
+injected, but the blank line it leaves ends the header block, so every later header becomes part of the body. -/
+
+/-- **whatever text it is given, the reference parser only returns fold-safe header values** -/
+theorem parser_values_fold_safe (s : String) : ∀ kv ∈ (Rfc822.parse s).headers, ValueOk kv.2 :=
+  parse_values_ok s.toList
+
+/-- **`render_injection_iff`**: the rendered document parses into exactly the declared headers IF AND ONLY IF every
+single-line field value is fold-safe.  For all records (arbitrary strings, lists, licence, description). -/
+theorem render_injection_iff (m : Meta.Meta) :
+    (Rfc822.parse (render m)).headers = expectedFields m ↔ ∀ v ∈ singleLineFieldValues m, ValueOk v := by
+  unfold Rfc822.parse render
+  rw [String.toList_ofList]
+  exact render_parse_iff_chars m
+
+/-- the same for the whole message: envelope line, headers, body, defects -/
+theorem render_parse_iff (m : Meta.Meta) :
+    Rfc822.parse (render m) =
+        { unixFrom := none, headers := expectedFields m, body := bodyOf (m.description.map String.toList), defects := [] } ↔
+      ∀ v ∈ singleLineFieldValues m, ValueOk v := by
+  constructor
+  · intro h
+    exact (render_injection_iff m).1 (by rw [h])
+  · intro h
+    unfold Rfc822.parse render
+    rw [String.toList_ofList]
+    exact render_parse_full_of_valueOk m h
+
+/-- **any line end that is not folded changes what is parsed**: if some single-line field contains a line end
+followed by anything but a blank/tab (`\r\n` counting as one line end), or ends in a line end — i.e. is not
+`ValueOk` — then the parsed header list is NOT the declared one (a header is added, cut or lost). -/
+theorem unfolded_line_break_changes_headers (m : Meta.Meta) (v : List Char) (hv : v ∈ singleLineFieldValues m)
+    (hbad : ¬ ValueOk v) : (Rfc822.parse (render m)).headers ≠ expectedFields m :=
+  fun h => hbad ((render_injection_iff m).1 h v hv)
+
+/-- `NoLineBreakInSingleLineFields` is the special case "no line end at all" -/
+theorem guard_is_noNL (m : Meta.Meta) :
+    NoLineBreakInSingleLineFields m ↔ ∀ v ∈ singleLineFieldValues m, NoNL v := guard_iff_noNL m
+
+/-- the four shapes, decided: a trailing `\n`, a trailing `\r`, a trailing `\r\n`, a line end followed by text, and a
+lone `\r` followed by text are NOT fold-safe; a line end followed by a blank (also `\r\n` + blank, `\r` + tab) is -/
+example : ¬ ValueOk "a\n".toList ∧ ¬ ValueOk "a\r".toList ∧ ¬ ValueOk "a\r\n".toList ∧ ¬ ValueOk "a\nb: c".toList ∧
+    ¬ ValueOk "a\rb".toList ∧ ¬ ValueOk "a\n\n b".toList ∧
+    ValueOk "a\n b".toList ∧ ValueOk "a\r\n\tb".toList ∧ ValueOk "a\r b".toList ∧ ValueOk "".toList := by decide
+
+/-- a folded line break is harmless (why the guard is not necessary): the record parses into its declared fields -/
+def foldedDemo : Meta.Meta := { demo with summary := "first line\n  second line", keywords := "a,\r\n\tb" }
+
+theorem folded_value_is_harmless :
+    (Rfc822.parse (render foldedDemo)).headers = expectedFields foldedDemo ∧ ¬ NoLineBreakInSingleLineFields foldedDemo := by
+  refine ⟨(render_injection_iff foldedDemo).2 (by decide), ?_⟩
+  intro h
+  exact absurd (h.summary '\n' (by decide)) (by decide)
+
+/-- a trailing line break is not: e.g. `requires-python = ">=3.8\n"` -/
+def trailingDemo : Meta.Meta := { demo with requiresPython := some ">=3.8\n" }
+
+theorem trailing_line_break_changes_headers :
+    (Rfc822.parse (render trailingDemo)).headers ≠ expectedFields trailingDemo :=
+  unfolded_line_break_changes_headers trailingDemo ">=3.8\n".toList (by decide) (by decide)
+
+/-! ### validation ⇒ guard ⇒ `render_parse`
+
+`validateSingleLine` is the model of `Factory._validate_single_line_fields` applied to both tables (key lists and
+the two forbidden characters regenerated from source; compared with the real method by the `validator` stream).
+`Trusted` lists what that validator does NOT look at, i.e. the single-line headers that are safe for another reason:
+
+* Version — `Version.to_string()` of the parsed version (C03: digits, dots, phase letters, `!`, `+`, alphanumeric local
+  segments);
+* Requires-Python — `[project].requires-python` is written VERBATIM and is not validated unless the source lists it
+  (`validated_requires_python`; on a tree without that key `requires-python = ">=3.8\n"` is the finding
+  `requires-python-trailing-newline`); the legacy form is the output of `format_python_constraint` (C15 printer);
+* Provides-Extra — `canonicalize_name(extra)`: lower-casing and `[-_.]+ → -` keep a line break, so the names must be
+  validated (`validated_extra_and_dependency_sources`; finding `extra-name-trailing-newline` otherwise);
+* Requires-Dist — `Dependency.to_pep_508()`: for `[project]` dependencies the text is re-printed from the parsed
+  PEP 508 requirement (C10); for `[tool.poetry.dependencies]` the name, url, branch, tag, rev, subdirectory and extras
+  are printed verbatim and must be validated (finding `dependency-source-line-break` otherwise); paths are
+  percent-encoded; version/python/platform/markers are parsed and re-printed (C13/C15);
+* Project-URL from `[tool.poetry]` homepage / repository / documentation — schema `format: uri` (`^\w+:(\/?\/?)[^\s]+\Z`);
+* the licence classifier name of an SPDX licence — the SPDX table;
+* License (multi-line by design: `license_never_leaves_its_header`), derived Python classifiers and the content type
+  derived from the readme suffix (constants of the source, proved single-line by `decide` inside `validated_guard`). -/
+
+/-- **validation ⇒ guard**: if `_validate_single_line_fields` reports nothing for `[project]` and `[tool.poetry]`, then the
+`Metadata` built from the configured package satisfies `NoLineBreakInSingleLineFields`, given `Trusted`. -/
+theorem validation_implies_guard (proj : ProjectT) (tool : ToolT) (spdx : String → Option License) (stored : Option String)
+    (extras rd texts : List String) (fp : String) (m : Meta.Meta)
+    (hv : validateSingleLine proj tool = [])
+    (hm : (configure proj tool spdx stored extras rd).toMeta texts fp = .ok m)
+    (ht : Trusted proj tool spdx extras rd fp m) :
+    NoLineBreakInSingleLineFields m :=
+  validated_guard_full proj tool spdx stored extras rd texts fp m hv hm ht
+
+/-- **the loop closed**: a validated pyproject (either table style, or both) renders to a document that parses into
+exactly its declared fields and its readme -/
+theorem validated_render_parse (proj : ProjectT) (tool : ToolT) (spdx : String → Option License) (stored : Option String)
+    (extras rd texts : List String) (fp : String) (m : Meta.Meta)
+    (hv : validateSingleLine proj tool = [])
+    (hm : (configure proj tool spdx stored extras rd).toMeta texts fp = .ok m)
+    (ht : Trusted proj tool spdx extras rd fp m) :
+    Rfc822.parse (render m) =
+      { unixFrom := none, headers := expectedFields m, body := bodyOf (m.description.map String.toList), defects := [] } :=
+  render_parse m (validation_implies_guard proj tool spdx stored extras rd texts fp m hv hm ht)
+
+/-- the hypotheses are satisfiable: a two-author, licensed, URL-carrying project in the PEP 621 spelling validates -/
+example : validateSingleLine Common.demo.toProject.1 Common.demo.toProject.2 = [] := by decide
+
+/-- `[project].requires-python` leaves `Trusted` as soon as the source validates that key -/
+theorem validated_requires_python (proj : ProjectT) (tool : ToolT) (hk : "requires-python" ∈ Gen.singleLineScalarKeys)
+    (hv : validateSingleLine proj tool = []) : ∀ r, proj.requiresPython = some r → SingleLine r :=
+  validated_requiresPython proj tool hk hv
+
+/-- likewise the names of extras as written, and the verbatim parts of `[tool.poetry.dependencies]` entries -/
+theorem validated_extra_and_dependency_sources (proj : ProjectT) (tool : ToolT) (hv : validateSingleLine proj tool = []) :
+    ("optional-dependencies" ∈ Gen.singleLineNameKeys → ∀ n ∈ proj.optionalDependencyNames, SingleLine n) ∧
+    ("extras" ∈ Gen.singleLineNameKeys → ∀ n ∈ tool.extraNames, SingleLine n) ∧
+    (Gen.singleLineDependencyKeys ≠ [] → ∀ d ∈ tool.dependencies, SingleLine d.1 ∧ ∀ spec ∈ d.2,
+      (∀ k ∈ Gen.singleLineDependencyKeys, ∀ v, spec.kvs.lookup k = some v → SingleLine v) ∧
+      (∀ e ∈ spec.extras, SingleLine e)) :=
+  ⟨(validated_extra_names proj tool hv).1, (validated_extra_names proj tool hv).2,
+   fun hne => validated_dependency_sources proj tool hne hv⟩
+
 /-- **Classifiers are sorted and free of duplicates** (dynamic classifiers, `Package.all_classifiers`): the result is
 `A ++ python ++ B` where `A ++ B` is the strictly increasing (code-point order) list of the declared and
 licence classifiers that are not Python-version classifiers, `A` sorts up to "Programming Language :: Python",
@@ -171,6 +301,37 @@ theorem project_eq_legacy (c : Common) (spdx : String → Option License) (extra
     (configure c.toProject.1 c.toProject.2 spdx none extras rd).toMeta texts fp =
       (configure {} c.toLegacy spdx none extras rd).toMeta texts fp :=
   project_eq_legacy_meta' c spdx extras rd texts fp hw hfp
+
+/-- **beyond the canonical-spelling hypothesis** (single plain ranges: `^3.8`, `~3.10`, `>=3.9`, `>=3.7,<3.12`, …):
+with `format_python_constraint` modelled (`Pkg.toMetaM`, Model/Dep02), the legacy project declaring
+`python = r` and the PEP 621 project declaring `requires-python = t`, where `t` is what poetry-core prints for the
+range `r` parses to and `t` reads back as that range, have equal metadata — Requires-Python and the derived Python
+classifiers included. -/
+theorem project_eq_legacy_range_printed (c : Common) (spdx : String → Option License) (extras rd texts : List String)
+    (r t : String) (R : VRange) (hw : c.Wf)
+    (hr : VParser.parseConstraint r = .ok (.single (.rng R))) (hr' : r ≠ "*") (ht' : t ≠ "*")
+    (hs : (VC.single (.rng R)).toStr = .ok t) (hrt : VParser.parseConstraint t = .ok (.single (.rng R))) :
+    (configure ({c with python := some t} : Common).toProject.1 ({c with python := some t} : Common).toProject.2
+        spdx none extras rd).toMetaM texts =
+      (configure {} ({c with python := some r} : Common).toLegacy spdx none extras rd).toMetaM texts :=
+  project_eq_legacy_range c spdx extras rd texts r t R hw hr hr' ht' hs hrt
+
+/-- the read-back hypothesis is discharged by C15's text round trip for every well-formed, tidy, non-wildcard range -/
+theorem project_eq_legacy_range_roundtrip (c : Common) (spdx : String → Option License) (extras rd texts : List String)
+    (r : String) (R : VRange) (hw : c.Wf)
+    (hr : VParser.parseConstraint r = .ok (.single (.rng R))) (hr' : r ≠ "*")
+    (hwf : R.WF) (hne : R.NE) (htidy : R.Tidy) (ht : ∀ e ∈ R.bounds, TextOK e)
+    (hp : R.isSingleWildcardRange = false) :
+    ∃ t, (VC.single (.rng R)).toStr = .ok t ∧
+      (t ≠ "*" →
+        (configure ({c with python := some t} : Common).toProject.1 ({c with python := some t} : Common).toProject.2
+            spdx none extras rd).toMetaM texts =
+          (configure {} ({c with python := some r} : Common).toLegacy spdx none extras rd).toMetaM texts) :=
+  project_eq_legacy_range' c spdx extras rd texts r R hw hr hr' hwf hne htidy ht hp
+
+example : ∃ R t, VParser.parseConstraint "^3.8" = .ok (.single (.rng R)) ∧ (VC.single (.rng R)).toStr = .ok t ∧
+    t = ">=3.8,<4.0" ∧ VParser.parseConstraint t = .ok (.single (.rng R)) :=
+  ⟨_, _, rfl, by decide +kernel, rfl, by decide +kernel⟩
 
 example : Common.demo.Wf :=
   { name_ne := by decide, version_ne := by decide, custom_not_special := by decide, custom_keys_nodup := by decide }
